@@ -1,4 +1,129 @@
-(* placeholder, replaced below *)
-From Allfed Require Import Model.Aggregate.
-Theorem c15_placeholder : True. Proof. exact I. Qed.
-Print Assumptions c15_placeholder.
+(* C15 - the aggregate fraction fed is a capped, population-weighted mean over exactly the selected countries.
+   Model: Model/Aggregate.v (get_countries_to_run_and_skip, the loop of run_model_no_trade, with
+   run_optimizer_for_country abstracted as  frac : iso3 -> option Q).
+   Table: Gen/CountryTable*.v, regenerated from computer_readable_combined.csv on every run. *)
+From Coq Require Import ZArith QArith Qminmax List String Bool.
+From Allfed Require Import Base.StrUtil Model.Tables Model.Aggregate Proofs.Aggregate Gen.CountryTable.
+Import ListNotations.
+Open Scope Q_scope.
+Open Scope string_scope.
+
+(* the shipped table, decoded *)
+Definition table_rows : list row := map (decode_row columns) raw_rows.
+
+(* ---------------------------------------------------------------- selection semantics (all lists, all codes) *)
+
+(* empty list: every country is run *)
+Theorem c15_select_empty : forall c, selected [] c = true.
+Proof. exact selected_nil. Qed.
+Print Assumptions c15_select_empty.
+
+(* exclusion list ("!" in front of bang-free codes): every country except the named ones *)
+Theorem c15_select_exclusion : forall cs c, cs <> [] -> Forall no_bang cs ->
+  selected (map (append "!") cs) c = negb (str_mem c cs).
+Proof. exact selected_exclusion_syntax. Qed.
+Print Assumptions c15_select_exclusion.
+
+(* inclusion list (no "!" anywhere): exactly the named countries (unknown codes and repeats are harmless) *)
+Theorem c15_select_inclusion : forall cs c, cs <> [] -> Forall no_bang cs -> selected cs c = str_mem c cs.
+Proof. exact selected_inclusion_syntax. Qed.
+Print Assumptions c15_select_inclusion.
+
+(* the code's exact rule, covering mixed lists and odd spellings: as soon as ONE entry has no "!", the entries without
+   "!" are run and all entries containing a "!" are ignored; otherwise every entry is stripped of all its "!" and skipped *)
+Theorem c15_select_general : forall l c,
+  (forallb has_bang l = false -> selected l c = str_mem c (filter (fun x => negb (has_bang x)) l)) /\
+  (l <> [] -> forallb has_bang l = true -> selected l c = negb (str_mem c (map strip_bang l))).
+Proof. intros l c. split; [apply selected_inclusion|apply selected_exclusion]. Qed.
+Print Assumptions c15_select_general.
+
+(* ---------------------------------------------------------------- value formula (any table, any options) *)
+
+(* whenever every selected row passes verify_country_data, the run returns
+   net_pop = sum of populations and net_pop_fed = sum of population * min(1, fraction) over exactly the rows that are
+   selected and have a non-NaN population and fraction (`counted`), and the result keys are their names, in order *)
+Theorem c15_value : forall n opts l frac ret rows,
+  n <> 0%nat ->
+  (forall r, In r rows -> selected l (iso3 r) = true -> verify_ok (apply_custom opts r) = true) ->
+  let cnt := filter (counted (get_run_skip l) frac) (map (apply_custom opts) rows) in
+  exists a, run_no_trade n opts l frac ret rows = AggOk a /\
+    net_pop a == sum_pop cnt /\ net_fed a == sum_fed frac cnt /\
+    (ret = true -> NoDup (map cname cnt) -> keys a = map cname cnt) /\
+    (ret = false -> keys a = []).
+Proof. exact run_no_trade_value. Qed.
+Print Assumptions c15_value.
+
+(* 0 <= aggregate <= 1 for non-negative populations and fractions and a positive total *)
+Theorem c15_aggregate_range : forall frac a cnt,
+  net_pop a == sum_pop cnt -> net_fed a == sum_fed frac cnt ->
+  (forall r, In r cnt -> 0 <= pop_of r) -> (forall r, In r cnt -> 0 <= opt0 (frac (iso3 r))) ->
+  0 < sum_pop cnt -> 0 <= aggregate a /\ aggregate a <= 1.
+Proof. exact aggregate_range. Qed.
+Print Assumptions c15_aggregate_range.
+
+(* order of checks: no scenario -> rejected; a selected row failing verify_country_data -> the whole run is rejected;
+   a NaN population fails verify_country_data, so the code's own NaN skip is never reached *)
+Theorem c15_rejections : forall n opts l frac ret rows,
+  run_no_trade 0 opts l frac ret rows = AggRejected /\
+  (existsb (fun r => selected l (iso3 r) && negb (verify_ok r)) rows = true ->
+   run_no_trade n [] l frac ret rows = AggRejected) /\
+  (forall r, getq r "population" = None -> verify_ok r = false).
+Proof.
+  intros. split; [reflexivity|]. split; [apply run_rejects|apply verify_ok_nan_population].
+Qed.
+Print Assumptions c15_rejections.
+
+(* ---------------------------------------------------------------- the shipped table (vm_compute over Gen/) *)
+
+Lemma table_fine : rows_fine table_rows = true.
+Proof. vm_compute. reflexivity. Qed.
+Lemma table_codes_nodup : nodup_b (map iso3 table_rows) = true.
+Proof. vm_compute. reflexivity. Qed.
+Lemma table_names_nodup : nodup_b (map cname table_rows) = true.
+Proof. vm_compute. reflexivity. Qed.
+
+(* country codes and country names of the table are duplicate-free (164 rows) *)
+Theorem c15_table_once :
+  NoDup (map iso3 table_rows) /\ NoDup (map cname table_rows) /\ List.length table_rows = 164%nat.
+Proof.
+  split; [apply nodup_b_sound, table_codes_nodup|]. split; [apply nodup_b_sound, table_names_nodup|].
+  vm_compute. reflexivity.
+Qed.
+Print Assumptions c15_table_once.
+
+(* every selection syntax, every vector of non-negative fractions, every non-empty scenario, on the shipped table:
+   the run is accepted, the totals are the capped weighted sums over exactly the selected rows, every selected country
+   is in the results exactly once, and the aggregate lies in [0,1] *)
+Theorem c15_shipped_table : forall n l frac,
+  n <> 0%nat -> (forall c, exists f, frac c = Some f /\ 0 <= f) ->
+  exists a, run_no_trade n [] l frac true table_rows = AggOk a /\
+    net_pop a == sum_pop (sel_rows l table_rows) /\
+    net_fed a == sum_fed frac (sel_rows l table_rows) /\
+    keys a = map cname (sel_rows l table_rows) /\ NoDup (keys a) /\
+    (sel_rows l table_rows <> [] -> 0 < net_pop a /\ 0 <= aggregate a /\ aggregate a <= 1).
+Proof.
+  intros n l frac Hn Hf.
+  apply run_fine_table; [exact Hn|apply table_fine|apply nodup_b_sound, table_names_nodup|exact Hf].
+Qed.
+Print Assumptions c15_shipped_table.
+
+(* a selected code of the table corresponds to exactly one selected row *)
+Theorem c15_selected_once : forall l c,
+  In c (map iso3 table_rows) -> selected l c = true ->
+  exists r, In r (sel_rows l table_rows) /\ iso3 r = c /\
+            forall r', In r' (sel_rows l table_rows) -> iso3 r' = c -> r' = r.
+Proof. intros l c. apply sel_rows_once. apply nodup_b_sound, table_codes_nodup. Qed.
+Print Assumptions c15_selected_once.
+
+Definition pop_of_code (c : string) : Q :=
+  match find (fun r => String.eqb (iso3 r) c) table_rows with Some r => pop_of r | None => 0 end.
+
+(* non-vacuity: the hypotheses are satisfiable and the numbers are what one expects *)
+Example c15_example_usa_chn :
+  match run_no_trade 1 [] ["USA"; "CHN"] (fun c => if String.eqb c "USA" then Some (3 # 2) else Some (1 # 2)) true table_rows with
+  | AggOk a => Qeq_bool (net_pop a) (pop_of_code "USA" + pop_of_code "CHN")
+               && Qeq_bool (net_fed a) (pop_of_code "USA" + (1 # 2) * pop_of_code "CHN")
+               && list_eqb (keys a) ["China"; "United States of America"]
+  | AggRejected => false
+  end = true.
+Proof. vm_compute. reflexivity. Qed.
